@@ -356,19 +356,16 @@ theorem aes_ok_step {fuel : Nat}
         (outOf (parseExtraField fuel f extra).2, extraView (parseExtraField fuel f extra).1))
     (f : FileData) (am : Model.AesMode) (vv : Model.AesVendorVersion) (cm : UInt16)
     (v0 v1 i0 i1 m c0 c1 : UInt8) (t : Bytes) (hl : t.length < fuel) :
-    Aes.parseExtraLoop 14 (v0 :: v1 :: i0 :: i1 :: m :: c0 :: c1 :: t)
+    Aes.parseExtraLoop 7 (v0 :: v1 :: i0 :: i1 :: m :: c0 :: c1 :: t)
         { uncompressedSize := (extraView f).uncompressedSize, compressedSize := (extraView f).compressedSize,
           headerStart := (extraView f).headerStart, largeFile := (extraView f).largeFile,
           aesMode := some (modeView am, verView vv), method := Aes.Method.fromU16 cm } =
-      (outOf (parseExtraField fuel { f with method := Model.Method.fromU16 cm, aesMode := some (am, vv) }
-          (List.drop 7 t)).2,
-       extraView (parseExtraField fuel { f with method := Model.Method.fromU16 cm, aesMode := some (am, vv) }
-          (List.drop 7 t)).1) := by
+      (outOf (parseExtraField fuel { f with method := Model.Method.fromU16 cm, aesMode := some (am, vv) } t).2,
+       extraView (parseExtraField fuel { f with method := Model.Method.fromU16 cm, aesMode := some (am, vv) } t).1) := by
   rw [loop_skip]
-  have hd : List.drop 14 (v0 :: v1 :: i0 :: i1 :: m :: c0 :: c1 :: t) = List.drop 7 t := rfl
+  have hd : List.drop 7 (v0 :: v1 :: i0 :: i1 :: m :: c0 :: c1 :: t) = t := rfl
   rw [hd, ← methodView_fromU16]
-  exact ih { f with method := Model.Method.fromU16 cm, aesMode := some (am, vv) } (List.drop 7 t)
-    (by rw [List.length_drop]; omega)
+  exact ih { f with method := Model.Method.fromU16 cm, aesMode := some (am, vv) } t hl
 
 /-- **The two models of `parse_extra_field` agree**: the C16 model (`Model.Aes.parseExtraLoop`, a cursor
 with a pending skip) run on the view of a record returns the outcome and the view of the record that the
